@@ -143,7 +143,9 @@ impl Arena {
         // Align the address, not the offset: the base is only page-aligned.
         let base = self.base.as_ptr() as usize;
         let beg = ((base + offset + alignment - 1) & !(alignment - 1)) - base;
-        let end = beg + bytes;
+        // A slice request is not bounded by `Layout`'s size limit: without overflow checks
+        // `beg + bytes` wrapped and the request "fit" below the current offset.
+        let end = beg.checked_add(bytes).ok_or(AllocError)?;
 
         if end > commit {
             return self.alloc_raw_bump(beg, end);
@@ -164,6 +166,10 @@ impl Arena {
     fn alloc_raw_bump(&self, beg: usize, end: usize) -> Result<NonNull<[u8]>, AllocError> {
         let offset = self.offset.get();
         let commit_old = self.commit.get();
+        // Checked before rounding up: an `end` near `usize::MAX` wraps to a small commit mark.
+        if end > self.capacity {
+            return Err(AllocError);
+        }
         let commit_new = (end + ALLOC_CHUNK_SIZE - 1) & !(ALLOC_CHUNK_SIZE - 1);
 
         if commit_new > self.capacity
@@ -252,12 +258,14 @@ unsafe impl Allocator for Arena {
         new_layout: Layout,
     ) -> Result<NonNull<[u8]>, AllocError> {
         debug_assert!(new_layout.size() >= old_layout.size());
-        debug_assert!(new_layout.align() <= old_layout.align());
 
         let new_ptr;
 
-        // Growing the given area is possible if it is at the end of the arena.
-        if unsafe { ptr.add(old_layout.size()) == self.base.add(self.offset.get()) } {
+        // Growing the given area is possible if it is at the end of the arena (and already
+        // aligned for the new layout, which may ask for more than the old one did).
+        if unsafe { ptr.add(old_layout.size()) == self.base.add(self.offset.get()) }
+            && ptr.as_ptr() as usize & (new_layout.align() - 1) == 0
+        {
             new_ptr = ptr;
             let delta = new_layout.size() - old_layout.size();
             // Assuming that the given ptr/length area is at the end of the arena,
